@@ -15,11 +15,7 @@ import (
 )
 
 func labWorkDir(name string) string {
-	base := os.Getenv("VERIF_WORK")
-	if base == "" {
-		base = "/verif/.work"
-	}
-	return filepath.Join(base, fmt.Sprintf("%s-%d", name, os.Getpid()))
+	return filepath.Join(labWorkBase(), fmt.Sprintf("%s-%d", name, os.Getpid()))
 }
 
 func argGenOpts(args map[string]string) GenOpts {
@@ -269,14 +265,7 @@ func buildLabBatch(args map[string]string, dirName string, withFaults bool) (*la
 			// defect hidden behind a method that no longer compiles still reaches dec/strict
 			flags := opts.GoFlags
 			if flagmix {
-				switch (i + i/4) % 4 {
-				case 1:
-					flags.Equal = false
-				case 2:
-					flags.Validate = false
-				case 3:
-					flags.Equal, flags.Validate = false, false
-				}
+				flags = labFlagMix(i, flags)
 			}
 			var c *LabCase
 			if vf, ok := args["veneers"]; ok {
@@ -350,6 +339,20 @@ func buildLabBatch(args map[string]string, dirName string, withFaults bool) (*la
 		b.t["rebuild"] = time.Since(t2)
 	}
 	return b, nil
+}
+
+// labFlagMix: Go flags of term i under flag mixing — (i + i/4) % 4: 0 unchanged, 1 equal off,
+// 2 validate off, 3 both off (JSON marshaller and strict unmarshaller untouched).
+func labFlagMix(i int, flags GoFlags) GoFlags {
+	switch (i + i/4) % 4 {
+	case 1:
+		flags.Equal = false
+	case 2:
+		flags.Validate = false
+	case 3:
+		flags.Equal, flags.Validate = false, false
+	}
+	return flags
 }
 
 func labSortedKeys(m map[string]int) []string {
